@@ -294,6 +294,11 @@ Complete == (n > 0 /\ hist[Len(hist)][6] /\ hist[Len(hist)][4] = "fold") =>
               LET o == hist[Len(hist)][7] IN
               /\ Len(o[4]) = o[2] - o[3]
               /\ \A i \in 1..Len(o[4]) : o[4][i] = o[3] + i
+\* C09 "no read blocks forever": under weak fairness every started operation ends (the page-index guard of a reader delays the
+\* writer's page-index update, never the other way round for ever); checked without state constraint and without VIEW
+FairSpec == Spec /\ WF_vars(Next)
+ReadsEnd == \A r \in Readers : (rd[r].pc # "idle") ~> (rd[r].pc = "idle")
+WritesEnd == (w.pc # "idle") ~> (w.pc = "idle")
 DepthOK == n <= Depth
 HView == <<cells, rlen, pages, pub, pguards, w, rd, dev, last, old, ext>>
 Emit == n > 0 => PrintT(<<"REPLAY", ToJson(hist)>>)
